@@ -24,7 +24,7 @@ CLAIMED = {
              "exceeds 64 bits excluded and exhibited); role symmetry; the check list stays in descending order under every "
              "history of insertions and role switches. A source change to a formula or constant changes the generated Lean "
              "definitions and breaks the proof at lake build; hand-modelled switches and list operations are tied by a "
-             "differential run against the real functions; the RFC formulas are also evaluated directly on the C outputs.",
+             "differential run against the real functions; the RFC formulas are also evaluated directly on the C outputs. The type-preference switch nice_candidate_ice_type_preference is regenerated from agent/candidate.c as well and the model's version is proved equal to it (Props/C15TypePref).",
         note="Trusted: Lean kernel, tools/extract.py C-subset semantics (also differential-tested), kern_drv harness, "
              "scripted nice_interfaces_get_local_ips. In-agent list order at role switch / renomination is tied by simulation only.",
         technique="Lean 4 proof over source-regenerated definitions (translator) + differential correspondence",
